@@ -42,7 +42,7 @@ theorem loopNode_returns_ctxErr (loop : St → Res) (s : St) (e : Err)
     (loopNode loop s).err = some e := by
   unfold loopNode
   simp only [h1, h2]
-  rfl
+  exact loopErrRes_err _ _
 
 /-- A range loop whose first iteration's body is interrupted: the loop node returns the interrupt, having
     written exactly what that body wrote. -/
